@@ -98,7 +98,7 @@ def bump_typed(rng, d):
 
 # ---------------------------------------------------------------- generation
 def gen_program(rng, pkg, n=None, p_explicit=0.15, p_hidden=0.12, min_memento=2, p_lambda_pair=0.3, p_shadow=0.2,
-                p_init=0.3, p_ext=0.3, p_factory=0.3, p_diamond=0.25, p_prev=0.15):
+                p_init=0.3, p_ext=0.3, p_factory=0.3, p_diamond=0.25, p_prev=0.15, p_guard=0.15):
     n = n or rng.randint(3, 7)
     split = rng.randint(0, n - 1)  # nodes [0, split) live in module b, the rest in module a
     shadow = n >= 4 and rng.random() < p_shadow  # a wrapped helper of module b whose wrapper parameter is "a"
@@ -291,6 +291,11 @@ def gen_program(rng, pkg, n=None, p_explicit=0.15, p_hidden=0.12, min_memento=2,
                 if not any(c["t"] == j for c in nodes[u]["calls"]):
                     f = "attr" if (nodes[u]["mod"] == "b" and rng.random() < 0.3) else "bare"
                     nodes[u]["calls"].append({"t": j, "form": f})
+    if p_guard and rng.random() < p_guard:
+        # a call that fails stands inside a try block (its failure is handled) - or, after an edit, right after it
+        gc = [j for j in range(n) if nodes[j]["kind"] in ("memento", "plain") and nodes[j]["mod"] != "e"]
+        if gc:
+            nodes[rng.choice(gc)]["guard"] = {"inside": rng.random() < 0.8, "k": rng.randint(1, 9)}
     if p_prev and rng.random() < p_prev:
         # a plain helper that was defined twice: the name <helper>_old still refers to the earlier definition, and one
         # function of its module uses both
@@ -466,6 +471,10 @@ def render_def(prog, i, skip_names=()):
     L.append("    REC.hit(%r, %s)" % (nd["name"], ", ".join(names)))
     first = ("x %s %d" % (nd["op"], nd["const"])) if not nd["swap"] else ("%d %s x" % (nd["const"], nd["op"]))
     L.append("    r = %s" % first)
+    if nd.get("guard"):
+        g = nd["guard"]
+        L += ["    ga_, gb_ = abs, boom", "    try:", "        gp_ = ga_(x)"] + (["        gq_ = gb_(x)"] if g["inside"] else []) + [
+            "    except ValueError:", "        return -%d" % g["k"]] + ([] if g["inside"] else ["    gq_ = gb_(x)"]) + ["    r += gp_ + gq_"]
     if nd["tconst"]:
         L.append("    tc_ = %r" % (tuple(nd["tconst"]),))
         L.append("    r += %s(tc_) + tc_[0] * 3 - tc_[-1]" % nd.get("tfn", "sum"))  # order-sensitive
@@ -537,7 +546,7 @@ def from_imports(prog, mod):
 def header(prog, mod, twin, skip=()):
     pkg = ("tw_" if twin else "") + prog["pkg"]
     L = ["import datetime", "import functools", "import vf.twin as m" if twin else "import twosigma.memento as m",
-         "from vf.recorder import %s as REC" % ("TWIN_REC" if twin else "REC"), "from vf.twin import box"]
+         "from vf.recorder import %s as REC" % ("TWIN_REC" if twin else "REC"), "from vf.twin import box, boom"]
     if mod == "b":
         L.append("import %s.a as a" % pkg)
     if mod in ("a", "b") and has_mod(prog, "i"):
@@ -796,7 +805,7 @@ def apply_special(rng, prog, kind):
 
 EDIT_KINDS = ["const", "xconst", "tconst", "tperm", "builtin", "sconst", "nested_const", "op", "swap", "add_param", "default", "kwdefault",
               "add_call", "remove_call", "retarget_call", "retarget_alias", "var_value", "var_mutate", "version_bump",
-              "hidden_target", "prev_const"]
+              "hidden_target", "prev_const", "guard_move"]
 
 
 def apply_edit(rng, prog, kind=None, force_var=None):
@@ -824,6 +833,11 @@ def apply_edit(rng, prog, kind=None, force_var=None):
         i = cand[0]
         nodes[i]["const"] += rng.randint(1, 5)
         return done(i)
+    if kind == "guard_move":  # the failing call moves out of / into the try block (same instructions, other protected range)
+        for i in cand:
+            if nodes[i].get("guard"):
+                nodes[i]["guard"]["inside"] = not nodes[i]["guard"]["inside"]
+                return done(i)
     if kind == "prev_const":  # the body of an earlier definition that an old name still refers to
         for i in cand:
             if nodes[i].get("prev"):
